@@ -96,7 +96,7 @@ Lemma lex_code_cons f c r :
       | Some (k, r3) => CRead name k :: lex_code f r3
       | None => [CBad]
       end
-    | None => let '(w, r1) := span_while is_fnc (String c r) in code_word w :: lex_code f r1
+    | None => let '(w, r1) := span_name (String.length (String c r)) (String c r) in code_word w :: lex_code f r1
     end
   else tok_of_char c :: lex_code f r.
 Proof. reflexivity. Qed.
@@ -153,15 +153,46 @@ Lemma lex_plain x c f :
   digdot x = false -> Ascii.eqb x "*" = false -> is_opc x = false -> Ascii.eqb x nl = false -> is_alpha_ x = false ->
   lex_code (S f) (String x c) = if is_space x then lex_code f c else tok_of_char x :: lex_code f c.
 Proof. intros H1 H2 H3 H4 H5. rewrite lex_code_cons, H1, H2, H3, H4, H5. reflexivity. Qed.
+Lemma fnc_not_idc c : is_fnc c = false -> is_idc c = false /\ Ascii.eqb c "." = false.
+Proof. unfold is_fnc. intros H. apply orb_false_iff in H. exact H. Qed.
+Lemma span_name_plain w c : forall fuel, str_all is_idc w = true -> head_not is_fnc c = true -> span_name fuel (w ++ c) = (w, c).
+Proof.
+  intros fuel Hw Hc.
+  assert (Hi : head_not is_idc c = true).
+  { destruct c as [|d c1]; [reflexivity|]. cbn [head_not] in *. apply negb_true_iff in Hc. rewrite (proj1 (fnc_not_idc d Hc)). reflexivity. }
+  destruct fuel as [|f]; cbn [span_name]; rewrite (span_all is_idc w c Hw Hi); [reflexivity|].
+  destruct c as [|d [|a c2]]; try reflexivity.
+  cbn [head_not] in Hc. apply negb_true_iff in Hc. rewrite (proj2 (fnc_not_idc d Hc)). reflexivity.
+Qed.
+Lemma span_name_S f s :
+  span_name (S f) s =
+  let '(w, r) := span_while is_idc s in
+  match r with
+  | String d (String a r') =>
+    if Ascii.eqb d "." && is_alpha_ a then let '(w2, r2) := span_name f (String a r') in (w ++ String "." w2, r2) else (w, r)
+  | _ => (w, r)
+  end.
+Proof. reflexivity. Qed.
+Lemma span_name_np w2 c : str_all is_idc w2 = true -> head_not (fun h => negb (is_alpha_ h)) w2 = true -> w2 <> "" ->
+  head_not is_fnc c = true ->
+  span_name (String.length (("np." ++ w2) ++ c)) (("np." ++ w2) ++ c) = ("np." ++ w2, c).
+Proof.
+  intros Hw Hh Hn Hc. destruct w2 as [|a t]; [contradiction|]. cbn [head_not] in Hh. apply negb_true_iff, negb_false_iff in Hh.
+  cbn [append String.length]. rewrite span_name_S.
+  change (span_while is_idc (String "n" (String "p" (String "." (String a (t ++ c))))))
+    with (span_while is_idc ("np" ++ String "." (String a (t ++ c)))).
+  rewrite (span_all is_idc "np" (String "." (String a (t ++ c))) eq_refl eq_refl).
+  change (Ascii.eqb "." ".") with true. rewrite Hh. cbn [andb].
+  change (String a (t ++ c)) with (String a t ++ c). rewrite (span_name_plain (String a t) c _ Hw Hc). reflexivity.
+Qed.
 Lemma lex_word w c f :
   head_not (fun h => negb (is_alpha_ h)) w = true -> w <> "" -> prefix_rest "self._" (w ++ c) = None ->
-  str_all is_fnc w = true -> head_not is_fnc c = true ->
+  span_name (String.length (w ++ c)) (w ++ c) = (w, c) ->
   lex_code (S f) (w ++ c) = code_word w :: lex_code f c.
 Proof.
-  intros Hh Hn Hp Hw Hc. destruct w as [|h t]; [contradiction|]. cbn [head_not] in Hh. apply negb_true_iff, negb_false_iff in Hh.
+  intros Hh Hn Hp Hw. destruct w as [|h t]; [contradiction|]. cbn [head_not] in Hh. apply negb_true_iff, negb_false_iff in Hh.
   destruct (alpha_not_special h Hh) as (H1 & H2 & H3 & H4 & H5).
-  change (String h t ++ c) with (String h (t ++ c)) in *. rewrite lex_code_cons, H1, H2, H3, H4, H5, Hh, Hp.
-  change (String h (t ++ c)) with (String h t ++ c). rewrite (span_all is_fnc _ c Hw Hc). reflexivity.
+  change (String h t ++ c) with (String h (t ++ c)) in *. rewrite lex_code_cons, H1, H2, H3, H4, H5, Hh, Hp, Hw. reflexivity.
 Qed.
 Lemma lex_series name k c f : str_all is_idc name = true ->
   lex_code (S f) (("self._" ++ name ++ offset_text k) ++ c) = CRead name k :: lex_code f c.
@@ -249,7 +280,8 @@ Lemma tok_class_inv m q : tok_class m = Some q ->
                    str_all is_idc name = true /\ code = ("self._" ++ name ++ offset_text k)%string) \/
    (q = PWord /\ tok_of_match m = code_word code /\ (after_match m = LNone \/ after_match m = LWord) /\
     head_not (fun h => negb (is_alpha_ h)) code = true /\ code <> ""%string /\
-    (forall c, prefix_rest "self._" (code ++ c) = None) /\ str_all is_fnc code = true)).
+    (forall c, prefix_rest "self._" (code ++ c) = None) /\
+    (forall c, head_not is_fnc c = true -> span_name (String.length (code ++ c)) (code ++ c) = (code, c)))).
 Proof.
   unfold tok_class. destruct (code_of_match m) as [code|]; [|destruct (tok_of_match m); discriminate].
   destruct (tok_of_match m) as [name k|w|s0| | | | | | | | | | |x] eqn:Et; try discriminate.
@@ -262,13 +294,16 @@ Proof.
     exists w. split; [reflexivity|]. right.
     assert (A : after_match m = LNone \/ after_match m = LWord) by (unfold after_match; destruct (mkind m); auto).
     unfold known_fun in E1. repeat (apply orb_true_iff in E1 as [E1|E1]); apply String.eqb_eq in E1; subst w;
-      (split; [reflexivity|]); (split; [reflexivity|]); (split; [exact A|]); repeat split; try discriminate; intros; reflexivity.
+      (split; [reflexivity|]); (split; [reflexivity|]); (split; [exact A|]); (split; [reflexivity|]); (split; [discriminate|]);
+      (split; [intros; reflexivity|]); intros c Hc;
+      first [ apply (span_name_plain _ c _ eq_refl Hc) | apply (span_name_np _ c eq_refl eq_refl ltac:(discriminate) Hc) ].
   - destruct (kw_text x) as [w|] eqn:Ek; [|discriminate].
     destruct (String.eqb code w) eqn:E; [|discriminate]. apply String.eqb_eq in E. subst code.
     intros H; inversion H; subst q. exists w. split; [reflexivity|]. right.
     assert (A : after_match m = LNone \/ after_match m = LWord) by (unfold after_match; destruct (mkind m); auto).
     destruct x; cbn [kw_text] in Ek; try discriminate Ek; inversion Ek; subst w;
-      (split; [reflexivity|]); (split; [reflexivity|]); (split; [exact A|]); repeat split; try discriminate; intros; reflexivity.
+      (split; [reflexivity|]); (split; [reflexivity|]); (split; [exact A|]); (split; [reflexivity|]); (split; [discriminate|]);
+      (split; [intros; reflexivity|]); intros c Hc; apply (span_name_plain _ c _ eq_refl Hc).
 Qed.
 
 Lemma tok_code_head m q code : tok_class m = Some q -> code_of_match m = Some code ->
@@ -334,7 +369,7 @@ Proof.
       { cbn [lex_items flush fuses app]. rewrite Etok, Eaft. reflexivity. }
       rewrite E. f_equal. apply (IH LNone c' f'); auto; [exact I|]. cbn [pend append].
       rewrite length_app_s in Hf. cbn [String.length] in Hf. lia.
-    + rewrite (lex_word code c' f' Hh Hn (Hp c') Hw (tight_word_head _ _ _ Ht Hr')).
+    + rewrite (lex_word code c' f' Hh Hn (Hp c') (Hw c' (tight_word_head _ _ _ Ht Hr'))).
       assert (L : 1 <= String.length code) by (destruct code; [contradiction|cbn; lia]).
       assert (E : lex_items LNone (Tok p m :: r) = code_word code :: lex_items (after_match m) r).
       { cbn [lex_items flush fuses app]. rewrite Etok. reflexivity. }
